@@ -4,7 +4,7 @@ from . import queuing2 as B
 from .qmodel import QModel
 
 EXPLANATION = ('Structural clauses of exactly-once in-order hand-over: R1 accept <=> enqueued once, R2 one sequential '
-               'consumer, R3 one task call per dequeued entry, R4 task = wrapped emit with the same text, R5/R5b a handle '
+               'consumer, R3 one task call per dequeued entry (R3f: the stop flag ends the loop only on an empty queue), R4 task = wrapped emit with the same text, R5/R5b a handle '
                'drop never stops a shared worker, R6 one channel. Typestate, call-graph and drop-graph rules over MIR.')
 
 
@@ -16,6 +16,10 @@ def check(ctx, rep):
     A.rule_emit(m, rep, 'R1')
     A.rule_one_consumer(m, rep, 'R2')
     A.rule_loop(m, rep, 'R3', liveness=True)
+    # the loop may end early on the sticky stop flag only once everything accepted has been taken out of the queue
+    from .common import KeepOnly
+    keep = KeepOnly(rep, ('/flag-exit-only-when-drained',), 'R3f')
+    B.rule_run_exit(m, keep, B.rule_stop(m, keep))
     A.rule_task_closure(m, rep, 'R4')
     B.rule_handle_drop(m, rep, 'R5')
     A.rule_same_channel(m, rep, 'R6')
